@@ -465,6 +465,13 @@ def cases(tier, rng):
                         for c in wcases(v):
                             yield c
                         yield case_line('r2.fmt', v)
+    # every weekday name (right and wrong) on the days around every year end, where the ISO year of the
+    # date differs from its calendar year (incl. year 0000, whose first days lie in ISO year -1)
+    for y in [0, 1, 2, 4, 5, 99, 100, 400, 1582, 1899, 1900, 1969, 1970, 1999, 2000] + list(range(2014, 2030)) + [9998, 9999]:
+        for (mo, d) in ((1, 1), (1, 2), (1, 3), (1, 4), (12, 28), (12, 29), (12, 30), (12, 31), (2, 28), (3, 1)):
+            for wd in range(7):
+                for ystr in (['%04d' % y] + (['%02d' % (y % 100)] if 1950 <= y <= 2049 else [])):
+                    yield case_line('r2.parse', '%s, %d %s %s 12:00:00 +0000' % (DAYN[wd], d, MONN[mo - 1], ystr))
     # every day of a leap and a common year (names, day padding), every weekday
     for y in (2023, 2024, 0, 9999, 1900, 2000):
         for o in range(1, 367):
